@@ -1,6 +1,8 @@
 import Xp.Proofs.C18Sound
 import Xp.Proofs.C18Rec
 import Xp.Proofs.C18Interf
+import Xp.Proofs.C18Ext
+import Xp.Gen.C18Skel
 /-
 C18 property theorems: the RBAC manager grants nothing beyond what is allowed.
 Helper lemmas live in Xp/Proofs/C18*.lean.
@@ -377,6 +379,286 @@ theorem binding_subjects_owned (uid : String) (ds : List Deployment) (sj : Subje
 example : ((applied sem Plan.allOk 0 (reconcile ⟨some "allow"⟩ "p") (exStore [⟨["get"], ["g"], ["r"], ["n"], []⟩])).filter Req.isWrite).length = 3 := by decide
 example : ((applied sem Plan.allOk 0 (reconcile ⟨some "allow"⟩ "p") (exStore [⟨["get", "list"], ["g"], ["r"], [], []⟩])).filter Req.isWrite).length = 0 := by decide
 example : rejectedIn ⟨some "allow"⟩ (exStore [⟨["get", "list"], ["g"], ["r"], [], []⟩]) (exPR [⟨["get", "list"], ["g"], ["r"], [], []⟩]) ≠ some [] := by decide
+
+/-! ### every single requested rule is judged on its own -/
+
+/-- **Every expanded request is looked up, and judged independently of the others.** The
+rejected list is exactly the expanded requests the tree refuses, in request order: a rule is
+rejected iff it is requested and refused; nothing is rejected iff every expanded request is
+allowed; and the verdict on a list of requests is the concatenation of the verdicts on its
+parts (no request is skipped, de-duplicated or influenced by another one). -/
+theorem every_request_is_judged (A : List PolicyRule) :
+    (∀ reqs r, r ∈ validate A reqs ↔ r ∈ expand reqs ∧ (tree A).allowed r.path = false) ∧
+    (∀ reqs, validate A reqs = [] ↔ ∀ r ∈ expand reqs, (tree A).allowed r.path = true) ∧
+    (∀ r1 r2, validate A (r1 ++ r2) = validate A r1 ++ validate A r2) ∧
+    (∀ q reqs, validate A (q :: reqs) = validate A [q] ++ validate A reqs) := by
+  refine ⟨?_, ?_, ?_, ?_⟩
+  · intro reqs r
+    simp [validate, List.mem_filter]
+  · intro reqs
+    simp [validate, List.filter_eq_nil_iff]
+  · intro r1 r2
+    simp [validate, expand, List.flatMap_append, List.filter_append]
+  · intro q reqs
+    simp [validate, expand, List.flatMap_cons, List.filter_append]
+
+/-- **The verdict does not depend on the order (or multiplicity) of the allow-list rules or of the
+requests**: allow lists with the same rules build trees that allow the same paths, and request
+lists with the same requests have the same set of rejected rules – in particular the same
+"nothing rejected" decision the reconciler acts on. (The seeded change C18-6 breaks exactly this:
+swapping two requests changes its verdict.) -/
+theorem verdict_is_order_independent (A A' reqs reqs' : List PolicyRule)
+    (hA : ∀ o, o ∈ A ↔ o ∈ A') (hR : ∀ q, q ∈ reqs ↔ q ∈ reqs') :
+    (∀ p, (tree A).allowed p = (tree A').allowed p) ∧
+    (∀ r, r ∈ validate A reqs ↔ r ∈ validate A' reqs') ∧
+    (validate A reqs = [] ↔ validate A' reqs' = []) := by
+  have hexp : ∀ (X X' : List PolicyRule), (∀ o, o ∈ X ↔ o ∈ X') → ∀ r, r ∈ expand X ↔ r ∈ expand X' := by
+    intro X X' h r
+    simp only [mem_expand]
+    exact ⟨fun ⟨o, ho, hr⟩ => ⟨o, (h o).1 ho, hr⟩, fun ⟨o, ho, hr⟩ => ⟨o, (h o).2 ho, hr⟩⟩
+  have h1 : ∀ p, (tree A).allowed p = (tree A').allowed p := by
+    intro p
+    rw [tree_allowed, tree_allowed]
+    exact any_congr_mem _ _ _ (hexp A A' hA)
+  have h2 : ∀ r, r ∈ validate A reqs ↔ r ∈ validate A' reqs' := by
+    intro r
+    simp only [validate, List.mem_filter, h1, hexp reqs reqs' hR r]
+  refine ⟨h1, h2, ?_⟩
+  simp only [List.eq_nil_iff_forall_not_mem]
+  exact ⟨fun h r hr => h r ((h2 r).2 hr), fun h r hr => h r ((h2 r).1 hr)⟩
+
+example : (∀ q : PolicyRule, q ∈ [⟨["get"], ["g"], ["r"], [], []⟩, ⟨["list"], ["g"], ["r"], [], []⟩] ↔
+      q ∈ [⟨["list"], ["g"], ["r"], [], []⟩, ⟨["get"], ["g"], ["r"], [], []⟩, ⟨["list"], ["g"], ["r"], [], []⟩]) := by
+  intro q; simp only [List.mem_cons, List.not_mem_nil, or_false]
+  constructor
+  · rintro (h | h)
+    · exact Or.inr (Or.inl h)
+    · exact Or.inl h
+  · rintro (h | h | h)
+    · exact Or.inr h
+    · exact Or.inl h
+    · exact Or.inr h
+
+/-- **The tree path identifies the granular rule**: two rules Expand produces (from whatever
+PolicyRules) with the same path are the same rule – the path, as a LIST of components, is a faithful
+key; no two different requested rules share a tree lookup. (A key that joins the components into one
+string is not: seeded C18-6.) -/
+theorem path_identifies_rule (X Y : List PolicyRule) (r1 r2 : Rule)
+    (h1 : r1 ∈ expand X) (h2 : r2 ∈ expand Y) (hp : r1.path = r2.path) : r1 = r2 :=
+  path_injective r1 r2 (expand_normal X r1 h1) (expand_normal Y r2 h2) hp
+
+example : (⟨"", "pods", "exec/*", "", "create"⟩ : Rule).path ≠ (⟨"", "pods/exec", "*", "", "create"⟩ : Rule).path ∧
+    "/".intercalate (⟨"", "pods", "exec/*", "", "create"⟩ : Rule).path = "/".intercalate (⟨"", "pods/exec", "*", "", "create"⟩ : Rule).path := by
+  decide
+
+/-- the two requests of the seeded change C18-6 (`pods` named `exec/*`, and `pods/exec`) are
+different rules with different paths; with only the first one allowed the second is rejected,
+in either order -/
+example :
+    let A : List PolicyRule := [⟨["create"], [""], ["pods"], ["exec/*"], []⟩]
+    let q1 : PolicyRule := ⟨["create"], [""], ["pods"], ["exec/*"], []⟩
+    let q2 : PolicyRule := ⟨["create"], [""], ["pods/exec"], [], []⟩
+    validate A [q1, q2] = [⟨"", "pods/exec", "*", "", "create"⟩] ∧
+    validate A [q2, q1] = [⟨"", "pods/exec", "*", "", "create"⟩] ∧ validate A [q1] = [] := by decide
+
+/-! ### DefinedResources, OrgDiffer over `String` (schema.ParseGroupVersion, strings.Cut, strings.Split) -/
+
+/-- **DefinedResources, exactly.** A resource (group, plural) is handed on iff some reference has
+kind CustomResourceDefinition, an apiVersion that is literally `apiextensions.k8s.io/<version>`
+(one '/', nothing else: neither a longer group nor a second '/'), and the name
+`<plural>.<group>` where `<plural>` is everything before the FIRST '.'. -/
+theorem defined_resources_exact (refs : List Ref) (x : Resource) :
+    x ∈ definedResources refs ↔
+      ∃ ref ∈ refs, ref.kind = "CustomResourceDefinition" ∧
+        (∃ v : String, ref.apiVersion = crdGroupName ++ "/" ++ v ∧ '/' ∉ v.toList) ∧
+        ref.name = x.plural ++ "." ++ x.group ∧ '.' ∉ x.plural.toList := by
+  have hne : crdGroupName ≠ "" := by decide
+  have hns : '/' ∉ crdGroupName.toList := by decide
+  simp only [definedResources, List.mem_filterMap]
+  constructor
+  · rintro ⟨ref, href, h⟩
+    split at h
+    · cases h
+    · rename_i hc
+      have hc' := not_or.1 hc
+      obtain ⟨v, hv, _, hnv⟩ := (groupOfAPIVersion_eq _ _ hne).1 (Classical.not_not.1 hc'.1)
+      cases hcd : cutDot ref.name with
+      | none => simp [hcd] at h
+      | some pg =>
+        obtain ⟨p, g⟩ := pg
+        simp only [hcd, Option.map_some, Option.some.injEq] at h
+        subst h
+        obtain ⟨hn, hp⟩ := (cutDot_eq _ _ _).1 hcd
+        exact ⟨ref, href, Classical.not_not.1 hc'.2, ⟨v, hv, hnv⟩, hn, hp⟩
+  · rintro ⟨ref, href, hk, ⟨v, hv, hnv⟩, hn, hp⟩
+    refine ⟨ref, href, ?_⟩
+    have hg : groupOfAPIVersion ref.apiVersion = crdGroupName :=
+      (groupOfAPIVersion_eq _ _ hne).2 ⟨v, hv, hns, hnv⟩
+    have hcd : cutDot ref.name = some (x.plural, x.group) := (cutDot_eq _ _ _).2 ⟨hn, hp⟩
+    simp [hg, hk, hcd]
+
+example : definedResources [⟨"apiextensions.k8s.io/v1", "CustomResourceDefinition", "widgets.acme.example.org"⟩,
+    ⟨"apiextensions.k8s.io/v1/x", "CustomResourceDefinition", "a.b"⟩, ⟨"v1", "CustomResourceDefinition", "a.b"⟩,
+    ⟨"apiextensions.k8s.io.evil/v1", "CustomResourceDefinition", "a.b"⟩, ⟨"apiextensions.k8s.io/v1", "CustomResourceDefinition", "nodot"⟩]
+    = [⟨"acme.example.org", "widgets"⟩] := by decide
+
+/-- **The organisation is the first element of the repository path** (`strings.Split(repo, "/")[0]`):
+it contains no '/', and the repository is that element alone or that element, '/', and a rest;
+a '/'-free repository is its own organisation and `org/rest` has organisation `org`. -/
+theorem org_is_first_path_element (repo : String) :
+    '/' ∉ (firstSeg repo).toList ∧
+    (firstSeg repo = repo ∨ ∃ rest : String, repo = firstSeg repo ++ "/" ++ rest) ∧
+    ('/' ∉ repo.toList → firstSeg repo = repo) ∧
+    (∀ org rest : String, '/' ∉ org.toList → repo = org ++ "/" ++ rest → firstSeg repo = org) :=
+  ⟨(firstSeg_spec repo).1, (firstSeg_spec repo).2, firstSeg_of_no_slash repo,
+   fun org rest h e => e ▸ firstSeg_of_slash org rest h⟩
+
+/-- **OrgDiffer.Differs, exactly**, over the parser's answers: two packages do NOT differ iff both
+references parse, the registry strings are equal, and the first elements of the repository paths
+are equal – and this is the `orgDiffers` on (registry, organisation) pairs the reconciler model
+(`memberResources`) uses. -/
+theorem org_differs_exact (a b : Option Parsed) :
+    (orgDiffersParsed a b = false ↔
+      ∃ x y, a = some x ∧ b = some y ∧ x.registry = y.registry ∧ firstSeg x.repo = firstSeg y.repo) ∧
+    orgDiffersParsed a b = orgDiffers (a.map Parsed.orgKey) (b.map Parsed.orgKey) :=
+  ⟨orgDiffersParsed_false a b, orgDiffersParsed_eq a b⟩
+
+/-- **Family members need the same registry and first path element**, over the parsed references:
+when the revisions' `org` fields are what the parser's answers give (`Parsed.orgKey`), a resource
+handed to the renderer is the revision's own or comes from another member of the family whose
+reference parsed to the same registry and to a repository with the same first path element. -/
+theorem family_needs_same_org_parsed (s : Store) (p : PR) (parsed : PR → Option Parsed)
+    (hparsed : ∀ q, q = p ∨ q ∈ s.prs → q.org = (parsed q).map Parsed.orgKey)
+    (x : Resource) (hx : x ∈ resourcesFor s p) :
+    x ∈ definedResources p.refs ∨
+    (p.family ≠ "" ∧ ∃ m ∈ s.prs, m.family = p.family ∧ m.uid ≠ p.uid ∧
+      (∃ a b, parsed p = some a ∧ parsed m = some b ∧ a.registry = b.registry ∧ firstSeg a.repo = firstSeg b.repo) ∧
+      x ∈ definedResources m.refs) := by
+  rcases resourcesFor_origin s p x hx with h | ⟨hf, m, hm, hfam, huid, ⟨o, hpo, hmo⟩, hxm⟩
+  · exact Or.inl h
+  · refine Or.inr ⟨hf, m, hm, hfam, huid, ?_, hxm⟩
+    have h1 := hparsed p (Or.inl rfl)
+    have h2 := hparsed m (Or.inr hm)
+    have hd : orgDiffersParsed (parsed p) (parsed m) = false := by
+      rw [orgDiffersParsed_eq, ← h1, ← h2, hpo, hmo]
+      simp [orgDiffers]
+    exact (orgDiffersParsed_false _ _).1 hd
+
+/-- the hypothesis of `family_needs_same_org_parsed` is met by the example store: its revision's
+`org` is what the parser's answer (registry r, repository o/x) gives -/
+example : ∀ q, q = exPR [] ∨ q ∈ (exStore []).prs →
+    q.org = ((fun _ : PR => some (⟨"r", "o/x"⟩ : Parsed)) q).map Parsed.orgKey := by
+  intro q h
+  have : q = exPR [] := by
+    rcases h with h | h
+    · exact h
+    · simpa [exStore] using h
+  subst this
+  decide
+
+example : orgDiffersParsed (some ⟨"xpkg.upbound.io", "acme/provider-a"⟩) (some ⟨"xpkg.upbound.io", "acme/nested/provider-d"⟩) = false ∧
+    orgDiffersParsed (some ⟨"xpkg.upbound.io", "acme/provider-a"⟩) (some ⟨"xpkg.upbound.io", "acme-evil/provider-a"⟩) = true ∧
+    orgDiffersParsed (some ⟨"xpkg.upbound.io", "acme/provider-a"⟩) (some ⟨"xpkg.upbound.io:443", "acme/provider-a"⟩) = true ∧
+    orgDiffersParsed (some ⟨"ghcr.io", "provider-x"⟩) (some ⟨"ghcr.io", "provider-y"⟩) = true ∧
+    orgDiffersParsed (some ⟨"ghcr.io", "provider-x"⟩) none = true := by decide
+
+/-! ### RenderClusterRoles: the grants do not depend on the order sort.Slice leaves -/
+
+/-- `renderRoles` is `renderRolesOrdered` on the sorted resources -/
+theorem render_is_ordered (p : PR) (rs : List Resource) :
+    renderRoles p rs = if rs.isEmpty then [] else renderRolesOrdered p (isort resourceLT rs) :=
+  renderRoles_ordered p rs
+
+/-- **Set semantics of the rendered rules.** Whatever order the sort leaves the resources in
+(stable or not, any permutation – indeed any list with the same members), the three roles have
+the same names, labels and controller, and the RBAC authorizer (RuleAllows over the role's rules)
+gives the same answer for EVERY request attribute: no assumption on sort.Slice is needed for what
+a provider is granted. In particular `renderRoles` grants exactly what rendering the unsorted
+list grants. -/
+theorem render_grants_order_independent (p : PR) (l1 l2 : List Resource) (h : ∀ x, x ∈ l1 ↔ x ∈ l2) :
+    (renderRolesOrdered p l1).map (fun x => (x.name, x.labels, x.ctrl)) =
+      (renderRolesOrdered p l2).map (fun x => (x.name, x.labels, x.ctrl)) ∧
+    ∀ a : Attr, (renderRolesOrdered p l1).map (fun x => rulesAllow x.rules a) =
+      (renderRolesOrdered p l2).map (fun x => rulesAllow x.rules a) := by
+  refine ⟨rfl, fun a => ?_⟩
+  simp only [renderRolesOrdered, List.map_cons, List.map_nil, groupRules_allow_congr l1 l2 h,
+    systemRules_allow_congr p l1 l2 h]
+
+theorem render_grants_sort_independent (p : PR) (rs : List Resource) (hne : rs.isEmpty = false) (a : Attr) :
+    (renderRoles p rs).map (fun x => rulesAllow x.rules a) =
+      (renderRolesOrdered p rs).map (fun x => rulesAllow x.rules a) := by
+  rw [render_is_ordered, hne]
+  exact (render_grants_order_independent p _ rs (fun x => mem_isort _ x rs)).2 a
+
+def exRes : List Resource := [⟨"g", "b"⟩, ⟨"h", "a"⟩, ⟨"g", "a"⟩]
+example : (∀ x, x ∈ exRes.reverse ↔ x ∈ exRes) ∧
+    renderRolesOrdered (exPR []) exRes ≠ renderRolesOrdered (exPR []) exRes.reverse ∧
+    (renderRolesOrdered (exPR []) exRes).map (fun x => rulesAllow x.rules (.res "get" "h" "a" "status" "n")) = [true, true, true] ∧
+    (renderRolesOrdered (exPR []) exRes).map (fun x => rulesAllow x.rules (.res "delete" "h" "a" "" "n")) = [true, false, false] :=
+  ⟨fun _ => List.mem_reverse, by decide, by decide, by decide⟩
+
+/-! ### regenerated facts: the modelled Go functions still have the modelled call skeleton
+
+`Xp.Gen.c18Skel*` are extracted from the CURRENT tree with go/ast on every run
+(harness/main/c18_skel.go); the right-hand sides are declared, entry by entry with the model step
+that mirrors each call, in Xp/Model/C18Skel.lean. -/
+
+theorem skeleton_reconcile : Xp.Gen.c18SkelReconcile = skelReconcile := by decide
+theorem skeleton_reconcile_xrd : Xp.Gen.c18SkelReconcileXRD = skelReconcileXRD := by decide
+theorem skeleton_reconcile_binding : Xp.Gen.c18SkelReconcileBinding = skelReconcileBinding := by decide
+theorem skeleton_new_reconciler : Xp.Gen.c18SkelNewReconciler = skelNewReconciler := by decide
+theorem skeleton_apply : Xp.Gen.c18SkelApply = skelApply := by decide
+theorem skeleton_defined_resources : Xp.Gen.c18SkelDefinedResources = skelDefinedResources := by decide
+theorem skeleton_cluster_roles_differ :
+    Xp.Gen.c18SkelClusterRolesDiffer = skelClusterRolesDiffer ∧
+    Xp.Gen.c18SkelXRDClusterRolesDiffer = skelClusterRolesDiffer := by decide
+theorem skeleton_bindings_differ : Xp.Gen.c18SkelBindingsDiffer = skelBindingsDiffer := by decide
+theorem skeleton_org_differs : Xp.Gen.c18SkelOrgDiffers = skelOrgDiffers := by decide
+theorem skeleton_validate : Xp.Gen.c18SkelValidate = skelValidate := by decide
+theorem skeleton_very_secure : Xp.Gen.c18SkelVerySecure = skelVerySecure := by decide
+theorem skeleton_expand : Xp.Gen.c18SkelExpand = skelExpand := by decide
+theorem skeleton_node_allow : Xp.Gen.c18SkelNodeAllow = skelNodeAllow := by decide
+theorem skeleton_node_allowed : Xp.Gen.c18SkelNodeAllowed = skelNodeAllowed := by decide
+theorem skeleton_rule_path : Xp.Gen.c18SkelRulePath = skelRulePath := by decide
+theorem skeleton_render_cluster_roles : Xp.Gen.c18SkelRenderClusterRoles = skelRenderClusterRoles := by decide
+theorem skeleton_with_verbs : Xp.Gen.c18SkelWithVerbs = skelWithVerbs := by decide
+theorem skeleton_render_xrd_roles : Xp.Gen.c18SkelRenderXRDRoles = skelRenderXRDRoles := by decide
+
+/-! #### the API-level entries of the declared skeletons are the steps of the model programs -/
+
+/-- a revision in a family, an allow-list role, one family member; an XRD; a deployment -/
+def exWorld : Store :=
+  { prs := [{ exPR [⟨["get"], ["g"], ["r"], ["n"], []⟩] with family := "f" },
+            { exPR [] with name := "q", uid := "v", family := "f" }],
+    xrds := [⟨"x", "ux", false, "g", "xs", some "cs"⟩],
+    deploys := [⟨"ns", "d", "sa", ["u"]⟩],
+    roles := [⟨"allow", [], [⟨["get"], ["g"], ["r"], [], []⟩], none⟩], bindings := [] }
+
+/-- `Reconcile` (provider roles): Get, List, ValidatePermissionRequests, Apply(×3) are the requests
+`reconcile` issues on a granted revision with a family: getPR, listPRs, getRole allow, then per
+role getRole + createRole -/
+theorem skeleton_reconcile_from_model :
+    collapse ((applied sem Plan.allOk 0 (reconcile ⟨some "allow"⟩ "p") exWorld).map (stepOf (some "allow")))
+      = apiSteps skelReconcile ∧
+    ((applied sem Plan.allOk 0 (reconcile ⟨some "allow"⟩ "p") exWorld).filter Req.isWrite).length = 3 := by decide
+
+theorem skeleton_reconcile_xrd_from_model :
+    collapse ((applied sem Plan.allOk 0 (reconcileXRD "x") exWorld).map (stepOf none)) = apiSteps skelReconcileXRD ∧
+    ((applied sem Plan.allOk 0 (reconcileXRD "x") exWorld).filter Req.isWrite).length = 4 := by decide
+
+theorem skeleton_reconcile_binding_from_model :
+    collapse ((applied sem Plan.allOk 0 (reconcileBinding "p") exWorld).map (stepOf none)) = apiSteps skelReconcileBinding ∧
+    ((applied sem Plan.allOk 0 (reconcileBinding "p") exWorld).filter Req.isWrite).length = 1 := by decide
+
+/-- `APIUpdatingApplicator.Apply` = [the nameless-object Create,] Get + Create (NotFound), Get +
+Update (found, controllable, differs): the two paths of one `applyRoles` step -/
+theorem skeleton_apply_from_model :
+    let r : Role := ⟨"r", [], [], some "u"⟩
+    let s0 : Store := { exWorld with roles := [] }
+    let s1 : Store := { exWorld with roles := [⟨"r", [("k", "v")], [], some "u"⟩] }
+    (skelApply.filter (fun c => c == "client.Get" || c == "client.Create" || c == "client.Update")).drop 1 =
+      (applied sem Plan.allOk 0 (applyRoles "u" [r]) s0).filterMap applyStepOf ++
+      ((applied sem Plan.allOk 0 (applyRoles "u" [r]) s1).filterMap applyStepOf).drop 1 := by decide
 
 /-! ### other writers, a lagging informer cache, error classes
 
